@@ -344,10 +344,9 @@ def inject(text, specs, ghost_calls=(), lenient_loops=False, lenient_ghost=False
                 continue
             raise
         if 'ghost' in sp and lenient_ghost:
-            try:
-                _place_ghost(text, sp, bo, bc, loops, ghost_calls, edits, report, n)
-            except InjectError as e:
-                report.append({'func': func, 'ghost': sp['ghost'], 'dropped': 'ghost anchor does not match (ghost-free fallback run): %s' % e})
+            # ghost-free fallback run (-DVC_FALLBACK=1): the harness compiles its ghost-dependent assertions out, so NO ghost statement is
+            # injected - one whose anchor still matches may name locals the changed code no longer has
+            report.append({'func': func, 'ghost': sp['ghost'], 'dropped': 'ghost statements are not injected in a ghost-free fallback run'})
             continue
         if 'ghost' in sp:
             _place_ghost(text, sp, bo, bc, loops, ghost_calls, edits, report, n)
